@@ -88,6 +88,12 @@ static void run() {
     else if (c == "f64") { int64_t n = nint(); stack.push_back(leaf<double>(n, "d", util::dtype::float64, true)); }
     else if (c == "f32") { int64_t n = nint(); stack.push_back(leaf<float>(n, "f", util::dtype::float32, true)); }
     else if (c == "bool") { int64_t n = nint(); stack.push_back(leaf<uint8_t>(n, "?", util::dtype::boolean, false)); }
+    else if (c == "i64nd") { int64_t nd = nint(); std::vector<ssize_t> shape, strides((size_t)nd); int64_t tot = 1;
+      for (int64_t i = 0; i < nd; i++) { shape.push_back((ssize_t)nint()); tot *= shape.back(); }
+      ssize_t acc = 8; for (int64_t i = nd - 1; i >= 0; i--) { strides[(size_t)i] = acc; acc *= shape[(size_t)i]; }
+      std::shared_ptr<void> ptr(malloc(tot == 0 ? 8 : tot * 8), free);
+      for (int64_t i = 0; i < tot; i++) ((int64_t*)ptr.get())[i] = nint();
+      stack.push_back(std::make_shared<NumpyArray>(noid, noparams, ptr, shape, strides, 0, 8, "l", util::dtype::int64, kernel::lib::cpu)); }
     else if (c == "empty") stack.push_back(std::make_shared<EmptyArray>(noid, noparams));
     else if (c == "listoffset64") { int64_t n = nint(); Index64 o = rindex<int64_t>(n); ContentPtr x = pop(); stack.push_back(std::make_shared<ListOffsetArray64>(noid, noparams, o, x)); }
     else if (c == "listoffset32") { int64_t n = nint(); Index32 o = rindex<int32_t>(n); ContentPtr x = pop(); stack.push_back(std::make_shared<ListOffsetArray32>(noid, noparams, o, x)); }
